@@ -20,6 +20,7 @@ struct robj {
 	struct cookie	*ck;
 	int		registered;
 	int		gen;
+	int		attempts;	/* registration attempts so far (a planned failure hits the first) */
 	long		ncb;
 	/* chan */
 	int		ctype, cfd[2], copen[2];
@@ -70,7 +71,7 @@ enum {
 	PR_THREAD_EXIT_NODEINIT, PR_SIG_CB, PR_SIG_DURING_HANDLER, PR_SIG_HANDOFF, PR_WAIT_CB,
 	PR_PID_REUSED, PR_KILL_DEAD, PR_WORK_RUN, PR_WORK_DONE, PR_POOL_PUT_BUSY, PR_IDLE_TIMEOUT,
 	PR_PUMP_BYTES, PR_PUMP_FULL, PR_PUMP_EOF, PR_INOT_CB, PR_INOT_MULTI, PR_POPEN_KILL,
-	PR_REG_FAILED_EVENT, PR_TIMER_MANY, PR_RADIX_CROSS, PR_SIG_NOWALK, PR_SIG_FOREIGN,
+	PR_REG_FAILED_EVENT, PR_TIMER_MANY, PR_RADIX_CROSS, PR_SIG_NOWALK, PR_SIG_FOREIGN, PR_REG_FAILED_EXT,
 	PR_MAX
 };
 
@@ -84,6 +85,10 @@ extern long PROBE[PR_MAX];
 extern long CBS[K_MAX];
 extern long OPS[OP_MAX];
 
+/* a registration whose plan object says so (p7) fails at its first attempt: the fault is armed for the
+ * calling thread's next call at the site and disarmed again if that call never happened */
+int reg_fault_arm(int id, int want, int site, int err);
+void reg_fault_disarm(int site);
 void hb_release(void *a);
 void hb_acquire(void *a);
 void viol(const char *id, const char *fmt, ...) __attribute__((format(printf, 2, 3)));
